@@ -210,6 +210,7 @@ CHECKS = {'C01': ('exploration',
 
 # additions of round 6, appended to the level text
 ROUND7 = {
+    "C17": "generated values rendered through a predefined bot message that mentions the variable.",
     "C03": "later turns that repeat the LLM text of a faulted turn, exception kinds from the LangChain hierarchy.",
     "C07": "repeated leaves in formulas, event leaves inside when groups.",
     "C09": "long cascades of internal events (above 1000) for one external event.",
